@@ -1,5 +1,7 @@
 import ChythonModel.Proofs.C09Api
 import ChythonModel.Proofs.C09Closure
+import ChythonModel.Proofs.C09SearchP
+import ChythonModel.Proofs.C09SearchR
 /-!
 # C09 — compiled (bit-mask) matcher ≡ reference matcher: property theorems
 
@@ -7,7 +9,7 @@ All statements are about the functions of `Model/BitLayout.lean` that `Drivers/C
 `Gen/BitLayout.lean`, `Gen/PeriodicTable.lean`, `Gen/QueryTables.lean` (regenerated from the source on every run).
 -/
 namespace ChythonModel.Props.C09
-open ChythonModel.Model.Bits ChythonModel.Gen.Bits ChythonModel.Model.Query ChythonModel.Proofs.C09
+open ChythonModel.Model.Bits ChythonModel.Gen.Bits ChythonModel.Model.Query ChythonModel.Proofs.C09 ChythonModel.Model
 
 /-! ## the layout -/
 
@@ -174,6 +176,33 @@ theorem closureC_is_count_test (m : CMol) (q : CQuery) (qa : CQAtom) (mAtom : CA
 
 example : closureCountTest [⟨5, 2⟩, ⟨9, 7⟩] [⟨13, 7⟩, ⟨7, 2⟩] [7, 2] 2 = true ∧ closureSetTest [⟨5, 2⟩, ⟨9, 7⟩] [⟨13, 7⟩, ⟨7, 2⟩] [7, 2] = true := by
   decide
+
+/-! ## the search: both loops are the same depth-first search -/
+
+/-- the loop of `_isomorphism.pyx` (stack arrays, `path/path_size`, lazily unmarked `matched` array) is the generic depth-first search
+    `runG` whose bookkeeping is recomputed from the path: `matched` is always the indicator of the current path (`InvS`: injective
+    path, waiting entries hang below a prefix of the path, deeper entries on top) -/
+theorem compiled_loop_is_generic_search (cm : CMol) (cq : CQuery) (scope : List Bool) (fuel : Nat) (stack : List (Nat × Nat))
+    (path : List Nat) (acc : List Iso.Dict) (hinv : InvS stack path) :
+    runLoopC cm cq scope (cq.atoms.length - 1) fuel stack path (ind cm.atoms.length path) acc =
+      runG (envC cm cq scope) fuel stack path acc :=
+  runLoopC_eq_runG cm cq scope fuel stack path acc hinv
+
+/-- the loop of the pure-Python `_get_mapping` (C07's `Iso.runLoop`: `mapping` / `reversed_mapping` dicts with lazy truncation) is
+    the same generic search: the dicts are always the zips of the query order with the path -/
+theorem reference_loop_is_generic_search (e : Iso.Env) (hF : (frontsOf e.lq).Nodup) (fuel : Nat) (stack : List (Nat × Nat))
+    (path : List Nat) (acc : List Iso.Dict) (hinv : InvS stack path) (hlen : path.length ≤ e.lq.length) :
+    Iso.runLoop e (e.lq.length - 1) fuel stack path (mappingOf e.lq path) (rmappingOf e.lq path) acc =
+      runG (envP e) fuel stack path acc :=
+  runLoop_eq_runG e hF fuel stack path acc hinv hlen
+
+/-- `compiled_search_eq_reference_search`: on buffers that faithfully encode a structure `D` whose (query atom, atom) pairs lie in the
+    documented domain (`Faithful`), `get_mapping` of the `.pyx` yields exactly what the reference search yields on the decoded
+    objects — the same depth-first skeleton with `mask & bits` replaced by `query_atom == atom and query_bond == bond`
+    (`mask_bond_eq_pyEq`) and the closure counter replaced by the closure-set comparison (`closure_tests_agree`). -/
+theorem compiled_search_eq_reference_search (D : Decode) (cm : CMol) (cq : CQuery) (hF : Faithful D cm cq) (scope : List Bool) :
+    getMappingC cm cq scope = getMappingR D cm cq scope :=
+  getMappingC_eq_R D cm cq hF scope
 
 /-- the full-strength statement the property text asks for ("every element 1–118", any hydrogen state, any `h` value the query API
     accepts, any ring size): **false** for the current code — `Findings/C09.lean` proves `¬ MaskEqPyEqFull` from four witnesses
